@@ -51,7 +51,13 @@ def _unraisable_hook(args):
         '%s:%s' % (getattr(args.exc_type, '__name__', '?'), args.exc_value))
 
 
-def begin_run(t0=0.0):
+def begin_run(t0=0.0, seed=0):
+    # F8: the global generators used by the random dividers are owned by the
+    # simulation; laws are checked for whichever outcome is drawn
+    import random
+    import numpy as np
+    random.seed(seed & 0xFFFFFFFF)
+    np.random.seed(seed & 0xFFFFFFFF)
     install_registries()
     install_monitor()
     sys.monitoring.restart_events()
